@@ -29,4 +29,22 @@ PROPS = {
         note="Trusted: Lean kernel, axioms propext/Quot.sound, the harness. Closures are modelled as pure functions; "
              "panicking closures are out of scope.",
         assumptions=["closures are modelled as pure functions plus an invocation count"]),
+    "C02": dict(
+        module="Flussab.Props.C02", engines=[("reader", 4000, 150000, "")], release=True,
+        claim="DeferredReader is modelled field for field (buffer, cursor, valid length, realign/shrink/grow, the "
+              "retried read) over a source model with arbitrary read schedules. Theorems, for every history and "
+              "schedule: each operation leaves the stream in front of the cursor unchanged except for the bytes "
+              "advanced over (op_preserves_stream / history_preserves_stream: nothing lost, duplicated, reordered, "
+              "invented; position = bytes advanced), the mark is stable across refills (mark_stable), requests fall "
+              "short only at the real end (request_short_only_at_end, request_byte_exact), flags and the parked error "
+              "are exact, pre-buffered BufReader bytes come first. The model is tied to deferred_reader.rs by running "
+              "random histories (incl. part-consumed BufReaders, chunk sizes 1-16384, Interrupted, faults) on the real "
+              "reader and on the model and comparing every observable after every op; a Vec+cursor oracle restates "
+              "the property on the implementation.",
+        note="Trusted: Lean kernel (axioms propext, Classical.choice, Quot.sound), the harness and its SchedSource, the "
+             "std::io::Read contract, Cursor::chain order. Assumes chunk >= 1, position() not wrapped past 2^64 "
+             "(mark_in_buf is modelled as the signed difference, equal to the wrapping arithmetic under that "
+             "assumption). Vec capacity and the unsafe get_unchecked calls themselves are outside the model.",
+        assumptions=["position() has not wrapped around 2^64", "chunk sizes >= 1",
+                     "source obeys the std::io::Read contract (lying sources are C14's subject)"]),
 }
